@@ -78,6 +78,12 @@ let run (path : string) =
         (* credentials in clear on the wire only when the user asked for it *)
         if (g "plain_auth" = "1" || g "plain_pass" = "1") && not (g "insecure" = "1" && g "dtls" = "0") then
           fail "C31" "plaintext-credentials-on-wire" line
+      | ["CLI15"; "two-peers"; "->"; r] ->
+        (* the real gateway binary, two peer addresses: the end of one session must not touch the other *)
+        incr total; incr nontriv;
+        if r <> "ok" && r <> "skipped" then begin
+          mismatch "listener isolation" line;
+          fail "C15" "peer-session-affected-by-another-peer" line end
       | "CLISUMMARY" :: rest ->
         let tbl = Gw_io.kv_tbl rest in
         if (try Hashtbl.find tbl "errors" with Not_found -> "0") <> "0" then mismatch "driver reported errors" line
